@@ -167,3 +167,107 @@ package encoding
 //@     requires [dispatch_simple8b] inited && enc.encodingType == 2
 //@   call (*Time).snappyDecoding
 //@     requires [dispatch_snappy] inited && enc.encodingType == 3
+
+// ---- boolean column: one scheme (bit-packing, type 1). The encoder writes 1<<4 and the value count; the decoder
+// accepts no other type.
+//@ func (*BytesBuffer).WriteByte
+//@   requires w != nil
+//@   ensures len(w.buf) == old(len(w.buf)) + 1 && w.buf[old(len(w.buf))] == b && result == nil
+//@   assigns w.buf
+//@ func (*BytesBuffer).Bytes
+//@   requires w != nil
+//@   ensures result == w.buf
+//@   assigns nothing
+//@ func (*Boolean).Encoding
+//@   requires enc != nil && enc.buf != nil && len(in) < 4294967296
+//@   call NewWriter
+//@     frame nothing
+//@   call (*BitWriter).Reset
+//@     frame nothing
+//@   call (*BytesBuffer).WriteByte
+//@     requires [bitpack_tag] arg0 == 16
+//@   call MarshalUint32Copy
+//@     requires [count_is_value_count] arg1 == len(in)
+//@ func (*Boolean).Decoding
+//@   requires enc != nil && enc.buf != nil && len(in) >= 5
+//@   ensures [only_bitpack] result1 == nil ==> old(in[0]) / 16 == 1
+//@   call (*BytesBuffer).Reset
+//@     requires [bits_follow_tag_and_count] enc.encodingType == 1 && len(arg0) == len(old(in)) - 5
+
+// ---- string column: type byte (type << 4), source length, compressed length, body. The header written by encInit
+// names the configured compressor and Encoding must run that compressor; when compression does not pay the block is
+// rewritten raw with type 0 and both lengths equal to the input length. The decoder takes the type from the first
+// byte, accepts 0..3 only and dispatches on it.
+//@ func GetCompressAlgo
+//@   call GetStoreConfig
+//@     frame nothing
+//@   ensures result >= 1 && result <= 3
+//@   assigns nothing
+//@ func ZSTDCompressBound
+//@   assigns nothing
+//@ func (*String).MaxEncodedLen
+//@   requires enc != nil
+//@   call CompressBlockBound
+//@     frame nothing
+//@   call MaxEncodedLen
+//@     frame nothing
+//@   assigns nothing
+//@ func (*String).encInit
+//@   requires enc != nil && enc.buf != nil && 0 <= enc.encodingType && enc.encodingType <= 3
+//@   call growBuffer
+//@     frame nothing
+//@   call NewWriter
+//@     frame nothing
+//@   call WithEncoderCRC
+//@     frame nothing
+//@   call WithEncoderLevel
+//@     frame nothing
+//@   call append with out
+//@     requires [type_byte] len(arg1) == 1 ==> arg1[0] == enc.encodingType * 16 && enc.encodingType != 0
+//@   ensures [type_settled] enc.encodingType >= 1 && enc.encodingType <= 3
+//@   ensures [keeps_configured_type] old(enc.encodingType) != 0 ==> enc.encodingType == old(enc.encodingType)
+//@ func (*String).Encoding
+//@   requires enc != nil && enc.buf != nil && 0 <= enc.encodingType && enc.encodingType <= 3
+//@   call (*String).encodingWithSnappy
+//@     requires [snappy_body_under_snappy_tag] enc.encodingType == 1
+//@   call (*String).encodingWithZSTD
+//@     requires [zstd_body_under_zstd_tag] enc.encodingType == 2
+//@   call (*String).encodingWithLz4
+//@     requires [lz4_body_under_lz4_tag] enc.encodingType == 3
+//@ func (*String).uncompressedData
+//@   requires enc != nil && 0 <= enc.outLen && enc.outLen <= len(enc.out) && len(in) < 4294967296
+//@   ghost n int = 0
+//@   call append
+//@     requires [raw_type_byte] n == 0 ==> len(arg0) == enc.outLen && len(arg1) == 1 && arg1[0] == 0
+//@     requires [body_is_input] n == 3 ==> arg1 == in
+//@     set n = n + 1
+//@   call MarshalUint32Append
+//@     requires [both_lengths_are_input_length] arg1 == len(in)
+//@     set n = n + 1
+//@ func (*String).validCompressedType
+//@   requires enc != nil
+//@   ensures (result == nil) == (enc.encodingType >= 0 && enc.encodingType <= 3)
+//@   assigns nothing
+//@ func (*String).decodingInit
+//@   requires enc != nil && enc.buf != nil
+//@   call NewReader
+//@     frame nothing
+//@   call WithDecoderConcurrency
+//@     frame nothing
+//@   ensures [type_from_first_byte] result == nil ==> len(in) >= 9 && enc.encodingType == old(in[0]) / 16
+//@   ensures [only_known_types] result == nil ==> enc.encodingType >= 0 && enc.encodingType <= 3
+//@   ensures [out_len_kept] result == nil ==> enc.outLen == len(out)
+//@ func (*String).Decoding
+//@   requires enc != nil && enc.buf != nil
+//@   ghost inited bool = false
+//@   call (*String).decodingInit
+//@     requires arg0 == in
+//@     set inited = (ret0 == nil)
+//@   call append
+//@     requires [dispatch_raw] inited && enc.encodingType == 0
+//@   call (*String).decodingWithLz4
+//@     requires [dispatch_lz4] inited && enc.encodingType == 3
+//@   call (*String).decodingWithSnappy
+//@     requires [dispatch_snappy] inited && enc.encodingType == 1
+//@   call (*String).decodingWithZSTD
+//@     requires [dispatch_zstd] inited && enc.encodingType == 2
